@@ -69,27 +69,34 @@ TwoPivot   == {"AscendRange", "DescendRange"}
 NoPivot    == {"Ascend", "Descend"}
 
 Rng(d, lo, hi) == [dir |-> d, lo |-> lo, hi |-> hi]
-Range(fn, p, q) ==
-  CASE fn = "AscendGte"            -> Rng("asc", Inc(p), NoB)
-    [] fn = "AscendGt"             -> Rng("asc", Exc(p), NoB)
-    [] fn = "DescendLte"           -> Rng("desc", NoB, Inc(p))
-    [] fn = "DescendLt"            -> Rng("desc", NoB, Exc(p))
-    [] fn = "AscendRange"          -> Rng("asc", Inc(p), Exc(q))     \* [p, q)
-    [] fn = "AscendLessThan"       -> Rng("asc", NoB, Exc(p))
-    [] fn = "AscendGreaterOrEqual" -> Rng("asc", Inc(p), NoB)
+(* A nil pivot means "no bound on that side": every entry point hands its pivots to iterate as   *)
+(* start / stop, and iterate treats a nil start or stop as absent (that is how Ascend / Descend  *)
+(* themselves are written).  pn / qn say that p / q was passed as nil.                           *)
+IncN(k, isnil) == IF isnil THEN NoB ELSE Inc(k)
+ExcN(k, isnil) == IF isnil THEN NoB ELSE Exc(k)
+RangeN(fn, p, q, pn, qn) ==
+  CASE fn = "AscendGte"            -> Rng("asc", IncN(p, pn), NoB)
+    [] fn = "AscendGt"             -> Rng("asc", ExcN(p, pn), NoB)
+    [] fn = "DescendLte"           -> Rng("desc", NoB, IncN(p, pn))
+    [] fn = "DescendLt"            -> Rng("desc", NoB, ExcN(p, pn))
+    [] fn = "AscendRange"          -> Rng("asc", IncN(p, pn), ExcN(q, qn))     \* [p, q)
+    [] fn = "AscendLessThan"       -> Rng("asc", NoB, ExcN(p, pn))
+    [] fn = "AscendGreaterOrEqual" -> Rng("asc", IncN(p, pn), NoB)
     [] fn = "Ascend"               -> Rng("asc", NoB, NoB)
-    [] fn = "DescendRange"         -> Rng("desc", Exc(q), Inc(p))    \* [p, q) downwards = (q, p]
-    [] fn = "DescendLessOrEqual"   -> Rng("desc", NoB, Inc(p))
-    [] fn = "DescendGreaterThan"   -> Rng("desc", Exc(p), NoB)
+    [] fn = "DescendRange"         -> Rng("desc", ExcN(q, qn), IncN(p, pn))    \* [p, q) downwards = (q, p]
+    [] fn = "DescendLessOrEqual"   -> Rng("desc", NoB, IncN(p, pn))
+    [] fn = "DescendGreaterThan"   -> Rng("desc", ExcN(p, pn), NoB)
     [] fn = "Descend"              -> Rng("desc", NoB, NoB)
-    [] fn = "AscendGreater"        -> Rng("asc", Exc(p), NoB)        \* added by neptune
-    [] fn = "DescendLess"          -> Rng("desc", NoB, Exc(p))       \* added by neptune
+    [] fn = "AscendGreater"        -> Rng("asc", ExcN(p, pn), NoB)        \* added by neptune
+    [] fn = "DescendLess"          -> Rng("desc", NoB, ExcN(p, pn))       \* added by neptune
+Range(fn, p, q) == RangeN(fn, p, q, FALSE, FALSE)
 
 (* every item of the interval, in scan order *)
-ScanSeq(s, fn, p, q) ==
-  LET r == Range(fn, p, q)
+ScanSeqN(s, fn, p, q, pn, qn) ==
+  LET r == RangeN(fn, p, q, pn, qn)
       f == SelectSeq(s, LAMBDA x : Above(r.lo, Key(x)) /\ Below(r.hi, Key(x)))
   IN IF r.dir = "asc" THEN f ELSE Rev(f)
+ScanSeq(s, fn, p, q) == ScanSeqN(s, fn, p, q, FALSE, FALSE)
 
 (* filters are logged as (modulus fm, residues fr): keep x iff key mod fm is a residue *)
 Pass(x, fm, fr) == \E i \in 1..Len(fr) : fr[i] = Key(x) % fm
@@ -97,13 +104,26 @@ Pass(x, fm, fr) == \E i \in 1..Len(fr) : fr[i] = Key(x) % fm
 (* the first n items of the interval, in scan order, that pass the filter *)
 ScanOf(s, fn, p, q, fm, fr, n) ==
   Take(SelectSeq(ScanSeq(s, fn, p, q), LAMBDA x : Pass(x, fm, fr)), n)
-Scan(s, a) == ScanOf(s, a.fn, a.p, a.q, a.fm, a.fr, a.n)
+PNil(a) == "pn" \in DOMAIN a /\ a.pn        \* action records without the field: not nil
+QNil(a) == "qn" \in DOMAIN a /\ a.qn
+Scan(s, a) ==
+  Take(SelectSeq(ScanSeqN(s, a.fn, a.p, a.q, PNil(a), QNil(a)), LAMBDA x : Pass(x, a.fm, a.fr)), a.n)
 
 (* --------------------------- actions ---------------------------------- *)
 Live(h) == h \in 1..Len(trees)
 T(a) == trees[a.h]
 
 WriteOps == {"ins", "roi", "upd", "upsert", "del", "idel", "delmin", "delmax", "clear"}
+(* run-length encoded histories (long runs around counter widths), applied in one step:          *)
+(*   fill  [h, k, n, v]  ReplaceOrInsert of the keys k .. k+n-1 in ascending order with versions *)
+(*                       v .. v+n-1; reply = how many of them replaced an item                   *)
+(*   drain [h, n, max]   n times DeleteMin (DeleteMax); reply = how many returned an item        *)
+RunOps   == {"fill", "drain"}
+Fill(s, k, n, v) ==
+  SelectSeq(s, LAMBDA x : Key(x) < k) \o [i \in 1..n |-> <<k + i - 1, v + i - 1>>]
+    \o SelectSeq(s, LAMBDA x : Key(x) > k + n - 1)
+Drained(s, n, max) ==
+  IF n >= Len(s) THEN <<>> ELSE IF max THEN SubSeq(s, 1, Len(s) - n) ELSE SubSeq(s, n + 1, Len(s))
 ReadOps  == {"get", "has", "len", "min", "max", "scan", "nop", "pscan"}   \* pscan: a scan whose callback panics: changes nothing, replies 0
 
 Reply(a) ==
@@ -121,6 +141,8 @@ Reply(a) ==
     [] a.op = "min"    -> First(T(a))
     [] a.op = "max"    -> Final(T(a))
     [] a.op = "scan"   -> Scan(T(a), a)
+    [] a.op = "fill"   -> Cardinality({x \in KeysOf(T(a)) : x >= a.k /\ x <= a.k + a.n - 1})
+    [] a.op = "drain"  -> IF a.n < Len(T(a)) THEN a.n ELSE Len(T(a))
     [] OTHER           -> 0                                   \* clone, clear, nop
 
 After(a) ==      \* contents of handle a.h after a write
@@ -137,6 +159,11 @@ Do(a) ==
   CASE a.op \in WriteOps ->
          /\ Live(a.h)
          /\ trees' = [trees EXCEPT ![a.h] = After(a)]
+         /\ UNCHANGED <<deg, api>>
+    [] a.op \in RunOps ->
+         /\ Live(a.h)
+         /\ trees' = [trees EXCEPT ![a.h] = IF a.op = "fill" THEN Fill(T(a), a.k, a.n, a.v)
+                                                ELSE Drained(T(a), a.n, a.max)]
          /\ UNCHANGED <<deg, api>>
     [] a.op = "clone" ->                  \* the new handle is the next free number
          /\ Live(a.h) /\ a.h2 = Len(trees) + 1
